@@ -62,6 +62,9 @@ func genGlob(t *rapid.T, label string) string {
 	return rapid.SampledFrom([]string{
 		"https://rp.example.com/cb/*", "https://*.example.com/cb", "http://localhost:*/cb", "https://rp.example.com/*/cb",
 		"http://rp.example.com/*", "com.example.app:/*", "https://rp.example.com/cb*",
+		"https://rp.example.com/cb/*", "https://*.example.com/cb", "http://localhost:*/cb", "https://rp.example.com/*/cb",
+		// syntactically malformed patterns (an administrator's typo): they match nothing
+		"https://rp.example.com/[cb", "https://rp.example.com/cb/{a,b",
 	}).Draw(t, label)
 }
 
@@ -301,13 +304,20 @@ func allowed(c *vkit.ClientSpec, uri, responseType string) (int, string) {
 		return -1, "empty"
 	}
 	exact := contains(c.RedirectURIs, uri)
-	glob := false
+	glob, malformed := false, false
 	if c.UseGlobs {
 		for _, g := range c.RedirectGlobs {
+			if strings.ContainsAny(g, "[{") {
+				malformed = true // matches nothing; the implementation may stop at it (fail closed)
+				continue
+			}
 			if globMatch(g, uri) {
 				glob = true
 			}
 		}
+	}
+	if !exact && glob && malformed {
+		return 0, "glob-hit-beside-malformed-glob"
 	}
 	registered := exact || glob
 	isHTTPS := strings.HasPrefix(uri, "https://")
